@@ -139,6 +139,11 @@ func c15Judge(cs *core.Case, x *rtcp.ExtendedReport) {
 		return
 	}
 	gx := got.(*rtcp.ExtendedReport)
+	if what, shared := mon.SharedElems(gx); shared {
+		// blocks decode independently of their neighbours: no two positions are one object
+		cs.Fail("decode/positions-share-an-object", det(core.W{"what": what})())
+		return
+	}
 	if len(gx.Reports) != len(x.Reports) {
 		cs.Fail("decode/block-count", det(core.W{"decoded": vdump(gx)})(), kfs...)
 		return
@@ -218,6 +223,11 @@ func runC15(c *core.Ctx) {
 		unaligned := r.Chance(1, 12)
 		for i := r.Intn(9); i > 0; i-- {
 			xr.Reports = append(xr.Reports, gen.XRBlock(r, gen.XRKind(r.Intn(int(nk))), unaligned))
+		}
+		if n := len(xr.Reports); n > 0 && n < 9 && r.Chance(1, 5) {
+			// twins: one block at two neighbouring positions (identical octets one after the other)
+			i := r.Intn(n)
+			xr.Reports = append(xr.Reports[:i+1], append([]rtcp.ReportBlock{xr.Reports[i]}, xr.Reports[i+1:]...)...)
 		}
 		if r.Chance(1, 3) {
 			gen.PrefillXRHeaders(r, xr)
